@@ -41,6 +41,12 @@ func (pBlock *ProphetBlock) BlockTypeName() string {
 }
 
 func (pBlock ProphetBlock) CheckValid() error {
+	// Endpoint IDs which are invalid cannot be serialised again.
+	for peer := range pBlock {
+		if err := peer.CheckValid(); err != nil {
+			return err
+		}
+	}
 	return nil
 }
 
